@@ -1127,6 +1127,6 @@ func main() {
 		Run:         run,
 		MinEvals:    3000,
 		MinDistinct: 60,
-		Require:     []string{"half_second_median_timestamp_comparisons", "supplement_with_a_contract_not_expiring_comparisons", "recomputable_proof_hash_comparisons", "sub_second_timestamp_comparisons", "state_identity_comparisons", "accepted_blocks", "purity_calls_checked", "provenance_comparisons", "stepwise_comparisons", "copies_checked", "concurrent_calls", "max_overlapping_calls", "update_element_proof_purity_checked", "spare_capacity_siblings_with_formation_and_renewal_in_one_transaction", "supplement_with_the_expiring_contracts_in_another_order_comparisons"},
+		Require:     []string{"half_second_median_timestamp_comparisons", "supplement_with_a_contract_not_expiring_comparisons", "recomputable_proof_hash_comparisons", "sub_second_timestamp_comparisons", "state_identity_comparisons", "accepted_blocks", "purity_calls_checked", "provenance_comparisons", "stepwise_comparisons", "copies_checked", "concurrent_calls", "max_overlapping_calls", "update_element_proof_purity_checked", "spare_capacity_siblings_with_formation_and_renewal_in_one_transaction", "supplement_with_the_expiring_contracts_in_another_order_comparisons", "copies_of_elements_with_an_emptied_proof_checked"},
 	})
 }
